@@ -197,7 +197,8 @@ class Leg:
         self.timeout = timeout
         self.known = list(known)
         self.extra_env = extra_env or {}
-        self.max_viol = max_viol
+        # development aid (bin/selftest): stop a shard after a few violations, a broken tree needs no census
+        self.max_viol = int(os.environ.get("VERIF_MAX_VIOL", max_viol))
         self.memcheck = memcheck      # run under valgrind memcheck (plain flavour build)
         self.stride = max(1, stride)  # evaluate every stride-th case only
         self.lock = threading.Lock()
